@@ -83,6 +83,8 @@ PRELUDE = r'''
 using namespace fixedmath;
 typedef std::int64_t i64; typedef std::uint64_t u64;
 constexpr fixed_t fx(i64 v) noexcept { return as_fixed(v); }
+constexpr bool nanv(i64 v) noexcept { return v == INT64_C(9223372036854775807) || v == -INT64_C(9223372036854775807); }
+constexpr bool same_or_nan(i64 a, i64 b) noexcept { return a == b || (nanv(a) && nanv(b)); }
 template<typename T> constexpr u64 tb(T v) noexcept
   {
   if constexpr (std::is_same_v<T,float>) return __builtin_bit_cast(std::uint32_t, v);
@@ -132,9 +134,14 @@ PRELUDE_LINES = PRELUDE.count("\n")
 def _ename(x): return x.replace(' ', '_')
 
 class Case:
-    __slots__ = ("entry", "expr", "rt", "sqrt_dep", "dbl", "desc", "res32", "optional")
-    def __init__(self, entry, expr, rt, desc, sqrt_dep=False, dbl=False, res32=False, optional=False):
+    __slots__ = ("entry", "expr", "rt", "sqrt_dep", "dbl", "desc", "res32", "optional", "mode")
+    def __init__(self, entry, expr, rt, desc, sqrt_dep=False, dbl=False, res32=False, optional=False, mode="equal"):
         self.entry, self.expr, self.rt, self.desc, self.sqrt_dep, self.dbl, self.res32 = _ename(entry), expr, rt, desc, sqrt_dep, dbl, res32
+        # how an accepted constant-evaluated value is judged:
+        #  "equal"  bit-identical to the run-time value of the same compiler (C08: that IS the property)
+        #  "oracle" the property's own pointwise oracle in the explorer (fmx --judge), independent of the run-time value
+        #  "law"    the expression is a relation between several constant-evaluated calls and must evaluate to 1
+        self.mode = mode
         self.optional = optional      # not constexpr by design: a rejection is not a finding, but an accepted value must equal the run-time value
 
 def s_set(w, r, with_nan=True):
@@ -188,7 +195,7 @@ def type_values(t, thorough):
 def directed_mul_pairs():
     """pairs whose raw product sits at the int64 limit or at the value limit, all sign combinations"""
     out = []
-    for t in ((1 << 63) - 1, 1 << 63, FX_MAX * 65536):
+    for t in ((1 << 63) - 1, 1 << 63, FX_MAX * 65536, 1 << 64, (1 << 64) + (1 << 62), (1 << 64) + (1 << 63) - 1):
         for b in (3, 7, 6939105, 65536, 98304, 1329187385653, (1 << 31) + 1, 0x5555555555555555 >> 20):
             q = t // b
             for d in (-1, 0, 1):
@@ -199,57 +206,317 @@ def directed_mul_pairs():
                             out.append((a, bb)); out.append((bb, a))
     return sorted(set(out))
 
-def gen_cases(tier, sqrt_available, focus=None):
-    th = tier == "thorough"
+def digit_words(digs=(0, 1, 0x7fffffff, 0x80000000, 0xaaaaaaaa, 0xffffffff)):
+    """64-bit words composed of two 32-bit digits from a corner alphabet, both signs, finite raw values only"""
+    out = set()
+    for hi in digs:
+        for lo in digs:
+            v = (hi << 32) | lo
+            if v >= 1 << 63:
+                v -= 1 << 64
+            for w in (v, -v):
+                if -FX_MAX <= w <= FX_MAX:
+                    out.add(w)
+    return sorted(out)
+
+def _un(cases, op, name, vals, dep=False):
+    for a in vals:
+        cases.append(Case(name, f"W_{name}({i64lit(a)})", ("un", op, a), f"{name}(raw {a})", sqrt_dep=dep, mode="oracle"))
+
+def _bin(cases, op, name, pairs, dep=False):
+    for a, b in pairs:
+        cases.append(Case(name, f"W_{name}({i64lit(a)}, {i64lit(b)})", ("bin", op, a, b), f"{name}(raw {a}, raw {b})", sqrt_dep=dep, mode="oracle"))
+
+def _mix(cases, op, t, order, a, bits, dbl=False):
+    cases.append(Case(f"mixed{MIX_OPS[op]}_{TYPES[t]}", f"W_mix<{op},{order},{TYPES[t]}>({i64lit(a)}, {typed_lit(t, bits)})", ("mixed", op, t, order, a, bits),
+                      f"raw {a} {MIX_OPS[op]} {TYPES[t]} bits {bits:#x} order {order}", dbl=dbl, mode="oracle"))
+
+def _law(cases, entry, expr, desc, dep=False):
+    cases.append(Case(entry, f"(({expr}) ? 1 : 0)", None, desc, sqrt_dep=dep, mode="law"))
+
+def converts(t, bits):
+    """does the operand convert to fixed_t without NaN (the premise of C16's promoted-computation clause)"""
+    if is_int(t):
+        return abs(int_value(t, bits)) <= 2147483647
+    f = struct.unpack("<f", struct.pack("<I", bits & 0xffffffff))[0]
+    return f == f and abs(f) < 2147483647.0
+
+def focus_cases(focus, th, sqrt_available):
+    """Property-focused alphabets for the constant-evaluation lane: the entry points a property is about, at the boundaries
+    the property names, evaluated by the compiler's constant evaluator. Pointwise clauses are judged by the property's own
+    oracle in the explorer (mode "oracle"); clauses that relate several calls are written as one boolean constant expression
+    over constant-evaluated calls (mode "law"). Nothing here is compared with a run-time value: a path taken only under
+    std::is_constant_evaluated() / if consteval is invisible to every run-time sweep, and a property with a tolerance does
+    not promise that the two evaluation modes agree (that is C08)."""
+    cases = []
+    M = (1 << 64) - 1
+    sm = small_set()
+    edge = sorted({0, 1, -1, 2, -2, 65536, -65536, 65537, 1 << 31, -(1 << 31), 1 << 47, -(1 << 47), (1 << 62) - 1, 1 << 62, (1 << 62) + 1, -(1 << 62) + 1, -(1 << 62), -(1 << 62) - 1,
+                   FX_MAX, FX_MAX - 1, FX_MAX - 65536, -FX_MAX, -FX_MAX + 1, -FX_MAX + 65536, (FX_MAX >> 1), (FX_MAX >> 1) + 1, -(FX_MAX >> 1), -(FX_MAX >> 1) - 1,
+                   0x5555555555555555, -0x5555555555555555, 0x2aaaaaaaaaaaaaab, 0x7fffffffffff0000, -0x7fffffffffff0000, 12345678901, -98765432109876})
+    L = i64lit
     if focus == "C12":      # the complete domain of asin / acos in constant evaluation
         if not sqrt_available:
             return []
-        cases = []
         for op, name in ((9, "asin"), (10, "acos")):
-            for a in range(-65536, 65537):
-                cases.append(Case(name, f"W_{name}({i64lit(a)})", ("un", op, a), f"{name}(raw {a})", sqrt_dep=True))
+            _un(cases, op, name, list(range(-65536, 65537)) + [65537, -65537, 65536 + 4096, -(1 << 20), 1 << 40, FX_MAX, -FX_MAX, FX_NAN, -FX_NAN], dep=True)
+        for x in sorted(set(range(-65536, 65537, 8)) | {-65536, -65535, 65535, 65536, -1, 0, 1}):
+            _law(cases, "asin_odd", f"W_asin({L(-x)}) == -W_asin({L(x)})", f"asin(-x) == -asin(x), raw x={x}", dep=True)
+            _law(cases, "acos_vs_asin", f"W_acos({L(x)}) + W_asin({L(x)}) >= 102943 && W_acos({L(x)}) + W_asin({L(x)}) <= 102944", f"acos(x) within 1 ulp of pi/2 - asin(x), raw x={x}", dep=True)
+            if x > -65536:
+                _law(cases, "asin_monotone", f"W_asin({L(x)}) >= W_asin({L(x - 1)})", f"asin(x) >= asin(x - 1ulp), raw x={x}", dep=True)
         return cases
-    if focus == "C19":      # the compiled table functions: not constexpr by design; if a tree makes them constexpr the values must agree
-        cases = []
+    if focus == "C19":      # the compiled table functions: not constexpr by design; if a tree makes them constexpr the values must satisfy the property
         for cosine in (0, 1):
             for d in list(range(-370, 731, 3)) + [65446, -65446, 1 << 20, -(1 << 20), 2147483647, -2147483647 - 1]:
                 lit = "(-2147483647-1)" if d == -(1 << 31) else str(d)
-                cases.append(Case("cos_angle_aprox" if cosine else "sin_angle_aprox", f"W_angle_aprox({cosine}, {lit})", ("angle_aprox", cosine, d), f"d={d}", optional=True))
+                cases.append(Case("cos_angle_aprox" if cosine else "sin_angle_aprox", f"W_angle_aprox({cosine}, {lit})", ("angle_aprox", cosine, d), f"d={d}", optional=True, mode="oracle"))
         for a in s_set(2, 1, with_nan=False):
             if 0 <= a < (1 << 37):
-                cases.append(Case("sqrt_aprox", f"W_sqrt_aprox({i64lit(a)})", ("un", 14, a), f"raw {a}", optional=True))
+                cases.append(Case("sqrt_aprox", f"W_sqrt_aprox({L(a)})", ("un", 14, a), f"raw {a}", optional=True, mode="oracle"))
             if abs(a) < (1 << 47):
-                cases.append(Case("atan_index_aprox", f"W_atan_index_aprox({i64lit(a)})", ("un", 15, a), f"raw {a}", optional=True))
+                cases.append(Case("atan_index_aprox", f"W_atan_index_aprox({L(a)})", ("un", 15, a), f"raw {a}", optional=True, mode="oracle"))
         return cases
-    if focus == "C17":      # the operators the laws are about, at the boundaries of the product, both operand orders
-        cases = []
-        for (a, b) in directed_mul_pairs():
-            for op, name in ((2, "mul"), (6, "muleq")):
-                cases.append(Case(name, f"W_{name}({i64lit(a)}, {i64lit(b)})", ("bin", op, a, b), f"{name}(raw {a}, raw {b})"))
-        for t in (3, 11, 7):
-            for (a, b) in directed_mul_pairs():
-                if t == 7 and b < 0:
-                    continue
-                for order in range(3):
-                    cases.append(Case(f"mixed*_{TYPES[t]}", f"W_mix<2,{order},{TYPES[t]}>({i64lit(a)}, {typed_lit(t, b & ((1 << 64) - 1))})", ("mixed", 2, t, order, a, b & ((1 << 64) - 1)), f"raw {a} * {TYPES[t]}({b}) order {order}"))
-        sm = small_set()
-        for op, name in ((0, "add"), (1, "sub"), (4, "addeq"), (5, "subeq")):
-            for a in sm[::2]:
-                for b in sm[::2]:
-                    cases.append(Case(name, f"W_{name}({i64lit(a)}, {i64lit(b)})", ("bin", op, a, b), f"{name}(raw {a}, raw {b})"))
+    if focus == "C17":      # the laws themselves, as constant expressions, at the boundaries of sum and product
+        pairs = sorted(set(directed_mul_pairs()[::3]) | {(a, b) for a in edge[::2] for b in edge[::3]} | {(a, b) for a in sm[::3] for b in sm[::4]})
+        for (a, b) in pairs:
+            _law(cases, "add_commutes", f"W_add({L(a)}, {L(b)}) == W_add({L(b)}, {L(a)})", f"a+b == b+a, raw a={a} b={b}")
+            _law(cases, "mul_commutes", f"W_mul({L(a)}, {L(b)}) == W_mul({L(b)}, {L(a)})", f"a*b == b*a, raw a={a} b={b}")
+            _law(cases, "sub_is_add_neg", f"W_sub({L(a)}, {L(b)}) == W_add({L(a)}, W_neg({L(b)}))", f"a-b == a+(-b), raw a={a} b={b}")
+            _law(cases, "add_then_sub", f"nanv(W_add({L(a)}, {L(b)})) || W_sub(W_add({L(a)}, {L(b)}), {L(b)}) == {L(a)}", f"(a+b)-b == a unless NaN, raw a={a} b={b}")
+        for a in sorted(set(edge) | set(sm)):
+            if abs(a) == FX_NAN:
+                continue
+            _law(cases, "sub_self", f"W_sub({L(a)}, {L(a)}) == 0", f"a-a == 0, raw a={a}")
+            if abs(a) < (1 << 47):
+                _law(cases, "mul_one", f"W_mul({L(a)}, 65536) == {L(a)} && W_mul(65536, {L(a)}) == {L(a)}", f"a*1 == a, raw a={a}")
+                _law(cases, "mul_zero", f"W_mul({L(a)}, 0) == 0 && W_mul(0, {L(a)}) == 0", f"a*0 == 0, raw a={a}")
+                _law(cases, "div_one", f"W_div({L(a)}, 65536) == {L(a)}", f"a/1 == a, raw a={a}")
+                if a != 0:
+                    _law(cases, "div_self", f"W_div({L(a)}, {L(a)}) == 65536", f"a/a == 1, raw a={a}")
+        for a in sm[::2]:
+            if abs(a) == FX_NAN:
+                continue
+            for n in (1, 2, 3, 7, -1, -5):
+                rep = " + ".join([f"fx({L(a)})"] * abs(n))
+                rep = f"({rep})" if n > 0 else f"(-({rep}))"
+                _law(cases, "mul_n_is_repeated_add", f"nanv(({rep}).v) || (fx({L(a)}) * {n}).v == ({rep}).v", f"a*n equals a added n times unless NaN, raw a={a} n={n}")
+                _law(cases, "mul_n_div_n", f"nanv((fx({L(a)}) * {n}).v) || ((fx({L(a)}) * {n}) / {n}).v == {L(a)}", f"(a*n)/n == a unless NaN, raw a={a} n={n}")
         return cases
     if focus == "C05":      # conversions only, denser floating values
-        cases = []
-        sm = small_set()
         for t in (8, 9):
             tv = type_values(t, True)
             for how in range(3):
                 for b in tv:
-                    cases.append(Case(f"from_{TYPES[t]}", f"W_from<{how},{TYPES[t]}>({typed_lit(t, b)})", ("from_fp", how, t, b), f"how={how} {TYPES[t]} bits {b:#x}"))
+                    cases.append(Case(f"from_{TYPES[t]}", f"W_from<{how},{TYPES[t]}>({typed_lit(t, b)})", ("from_fp", how, t, b), f"how={how} {TYPES[t]} bits {b:#x}", mode="oracle"))
             for how in range(2):
                 for a in sm + s_set(2, 1, with_nan=False)[::3]:
-                    cases.append(Case(f"to_{TYPES[t]}", f"W_to<{how},{TYPES[t]}>({i64lit(a)})", ("to_fp", how, t, a), f"how={how} raw {a} -> {TYPES[t]}", dbl=(t == 9), res32=(t == 8)))
+                    cases.append(Case(f"to_{TYPES[t]}", f"W_to<{how},{TYPES[t]}>({L(a)})", ("to_fp", how, t, a), f"how={how} raw {a} -> {TYPES[t]}", dbl=(t == 9), res32=(t == 8), mode="oracle"))
+        for a in sm + s_set(2, 1, with_nan=False)[::5]:
+            if abs(a) < 2147483647 * 65536:
+                _law(cases, "fixed_double_fixed", f"W_from<0,double>(static_cast<double>(fx({L(a)}))) == {L(a)}", f"fixed -> double -> fixed is the identity, raw {a}")
         return cases
+    if focus == "C01":
+        pairs = [(a, b) for a in edge for b in edge]
+        for op, name in ((0, "add"), (1, "sub"), (4, "addeq"), (5, "subeq")):
+            _bin(cases, op, name, pairs)
+        for name, op in (("addeq_self", 20), ("subeq_self", 21)):
+            _un(cases, op, name, edge)
+        return cases
+    if focus == "C02":
+        dw = digit_words()
+        pairs = sorted(set(directed_mul_pairs()) | {(a, b) for a in dw for b in dw})
+        _bin(cases, 2, "mul", pairs); _bin(cases, 6, "muleq", pairs[::3]); _un(cases, 22, "muleq_self", dw)
+        for t in (3, 7, 6):
+            for a in dw:
+                for b in dw:
+                    if t == 7 and b < 0:
+                        continue
+                    if t == 6 and not (0 <= b < 1 << 32):
+                        continue
+                    _mix(cases, 2, t, (a + b) % 3, a, b & M)
+        return cases
+    if focus == "C03":
+        dw = digit_words()
+        pairs = sorted({(a, b) for a in dw for b in dw} | {(a, b) for a in sm for b in sm if abs(a) != FX_NAN and abs(b) != FX_NAN})
+        _bin(cases, 3, "div", pairs); _bin(cases, 7, "diveq", pairs[::3]); _un(cases, 23, "diveq_self", dw)
+        for t in (3, 7, 2, 6):
+            for a in sm:
+                if abs(a) == FX_NAN:
+                    continue
+                for b in type_values(t, False):
+                    _mix(cases, 3, t, 0, a, b)
+                    if (a + b) % 2 == 0:
+                        _mix(cases, 3, t, 2, a, b)
+        return cases
+    if focus == "C04":
+        for t in INT_TYPES:
+            tv = type_values(t, True)
+            for how in range(3):
+                for b in tv:
+                    cases.append(Case(f"from_{_ename(TYPES[t])}", f"W_from<{how},{TYPES[t]}>({typed_lit(t, b)})", ("from_int", how, t, b), f"how={how} {TYPES[t]} bits {b:#x}", mode="oracle"))
+            for how in range(3):
+                for a in sm + [65535, -65535, -65537, 32768, -32768, (127 << 16) + 65535, (128 << 16), -(128 << 16) - 1, (255 << 16) + 1, (256 << 16), (32767 << 16) + 9, (32768 << 16), (65535 << 16) + 1, (65536 << 16), ((1 << 31) - 1) * 65536 + 65535, -((1 << 31) * 65536), -((1 << 31) * 65536) - 1]:
+                    if abs(a) == FX_NAN:
+                        continue
+                    cases.append(Case(f"to_{_ename(TYPES[t])}", f"W_to<{how},{TYPES[t]}>({L(a)})", ("to_int", how, t, a), f"how={how} raw {a} -> {TYPES[t]}", mode="oracle"))
+            for b in tv:      # implicit promotion: 0 + n, n + 0, n - 0, 0 - n, n / 1, x += n
+                _mix(cases, 0, t, 0, 0, b); _mix(cases, 0, t, 1, 0, b); _mix(cases, 0, t, 2, 0, b); _mix(cases, 1, t, 1, 0, b); _mix(cases, 1, t, 0, 0, b); _mix(cases, 3, t, 1, 65536, b)
+                if abs(int_value(t, b)) <= 2147483647:
+                    _law(cases, f"round_trip_{_ename(TYPES[t])}", f"static_cast<{TYPES[t]}>(fixed_t{{{typed_lit(t, b)}}}) == {typed_lit(t, b)}", f"n -> fixed_t -> T, {TYPES[t]} bits {b:#x}")
+        return cases
+    if focus == "C06":
+        su = sorted(set(s_set(3, 1)) | set(digit_words()))
+        for op, name in ((0, "neg"), (1, "abs"), (2, "isnan")):
+            _un(cases, op, name, [a for a in su if name == "isnan" or abs(a) != FX_NAN])
+        for a in su[::3]:
+            if abs(a) != FX_NAN:
+                _law(cases, "neg_neg", f"W_neg(W_neg({L(a)})) == {L(a)} && W_abs(W_neg({L(a)})) == W_abs({L(a)})", f"-(-x) == x and abs(-x) == abs(x), raw x={a}")
+        cm = sorted(set(sm[::2]) | {FX_NAN, -FX_NAN, FX_MAX, -FX_MAX, -(1 << 63)})
+        for op, name in ((12, "eq"), (13, "ne"), (14, "lt"), (15, "le"), (16, "gt"), (17, "ge")):
+            _bin(cases, op, name, [(a, b) for a in cm for b in cm])
+        return cases
+    if focus in ("C09", "C10"):
+        P2, PHI = 411774, 205887
+        if focus == "C09":
+            xs = sorted(set(range(-411774, 411775, 1499)) | {k * 51472 + d for k in range(-8, 9) for d in (-1, 0, 1)})
+            _un(cases, 5, "sin", xs); _un(cases, 6, "cos", xs)
+            kmax = (1 << 62) // P2 - 1
+            for r in (0, 1, 258, 51471, 102944, 205887, 300000, 411773, -5, -102944):
+                for k in (1, -1, 7, -64, 1 << 20, -(1 << 33), (1 << 43) + 1, kmax, kmax - 1, -kmax):
+                    x = r + k * P2
+                    if abs(x) < (1 << 62):
+                        _un(cases, 5, "sin", [x]); _un(cases, 6, "cos", [x])
+                        _law(cases, "sin_periodic", f"W_sin({L(x)}) == W_sin({L(r)})", f"sin(x + k*2phi) == sin(x), raw x={r} k={k}")
+                        _law(cases, "cos_periodic", f"W_cos({L(x)}) == W_cos({L(r)})", f"cos(x + k*2phi) == cos(x), raw x={r} k={k}")
+        else:
+            xs = sorted(set(range(-205887, 205888, 997)) | {k * 51472 + d for k in range(-4, 5) for d in (-2, -1, 0, 1, 2)} | {102943, 102944, -102943, -102944})
+            _un(cases, 7, "tan", xs)
+            for x in xs[::4] + [102944, 102944 + PHI, 3 * 102944 + 7 * PHI]:
+                _law(cases, "tan_odd", f"W_tan({L(-x)}) == -W_tan({L(x)}) || (nanv(W_tan({L(x)})) && nanv(W_tan({L(-x)})))", f"tan(-x) == -tan(x), raw x={x}")
+            kmax = (1 << 62) // PHI - 1
+            for r in (0, 1, 51472, 102943, 102944, 150000, 205886):
+                for k in (1, 7, 64, 1 << 20, 1 << 33, (1 << 44) + 1, kmax, kmax - 1):
+                    x = r + k * PHI
+                    if x < (1 << 62):
+                        _un(cases, 7, "tan", [x])
+                        _law(cases, "tan_periodic", f"W_tan({L(x)}) == W_tan({L(r)}) || (nanv(W_tan({L(x)})) && nanv(W_tan({L(r)})))", f"tan(x + k*phi) == tan(x), raw x={r} k={k}")
+        return cases
+    if focus == "C11":
+        xs = [a for a in s_set(3, 1, with_nan=False) if abs(a) < (1 << 47)]
+        _un(cases, 8, "atan", xs)
+        for x in xs[::5]:
+            _law(cases, "atan_odd", f"W_atan({L(-x)}) == -W_atan({L(x)})", f"atan(-x) == -atan(x), raw x={x}")
+        ps = [a for a in s_set(1, 0, with_nan=False) if abs(a) < (1 << 47)][::2] + [28672, 45056, 77824, 159744, -28672, -159744]
+        _bin(cases, 8, "atan2", [(y, x) for y in ps for x in ps])
+        return cases
+    if focus in ("C13", "C14"):
+        if focus == "C13":
+            xs = sorted({a for a in s_set(3, 1, with_nan=False) if -(1 << 20) < a < (1 << 47)} | {m * m for m in list(range(0, 4000, 37)) + [65535, 65536, 65537, 1 << 20, 11863282]} | {m * m + d for m in (255, 256, 46340, 1 << 20, 11863282) for d in (-1, 1)})
+            xs = [x for x in xs if x < (1 << 47)]
+            _un(cases, 12, "sqrt_abacus", xs)
+            pos = [x for x in xs if x >= 0]
+            for x in pos[::4]:
+                _law(cases, "sqrt_abacus_monotone", f"detail::sqrt_abacus(fx({L(x)})).v <= detail::sqrt_abacus(fx({L(x + 1)})).v", f"sqrt(x) <= sqrt(x + 1ulp), raw x={x}")
+            if sqrt_available:
+                _un(cases, 11, "sqrt", xs, dep=True)
+                for x in pos[::4]:
+                    _law(cases, "sqrt_monotone", f"W_sqrt({L(x)}) <= W_sqrt({L(x + 1)})", f"sqrt(x) <= sqrt(x + 1ulp), raw x={x}", dep=True)
+        elif sqrt_available:
+            ps = sorted({a for a in s_set(1, 1, with_nan=False) if abs(a) < (1 << 46)})[::6] + [3 * 65536, 4 * 65536, -5 * 65536, 12 * 65536, (16384 << 16) - 1, 16384 << 16, (16384 << 16) + 1]
+            _bin(cases, 9, "hypot", [(a, b) for a in ps for b in ps], dep=True)
+            for a in ps[::3]:
+                for b in ps[::4]:
+                    _law(cases, "hypot_symmetric", f"W_hypot({L(a)}, {L(b)}) == W_hypot({L(b)}, {L(a)}) && W_hypot({L(a)}, {L(b)}) == W_hypot({L(abs(a))}, {L(abs(b))})", f"hypot(a,b) == hypot(b,a) == hypot(|a|,|b|), raw a={a} b={b}", dep=True)
+        return cases
+    if focus == "C15":
+        lim = ((1 << 47) - 1) << 16
+        xs = [a for a in s_set(3, 2, with_nan=False) if abs(a) < lim]
+        _un(cases, 3, "floor", xs); _un(cases, 4, "ceil", xs)
+        for x in xs[::3]:
+            _law(cases, "ceil_is_neg_floor_neg", f"W_ceil({L(x)}) == W_neg(W_floor(W_neg({L(x)})))", f"ceil(x) == -floor(-x), raw x={x}")
+        return cases
+    if focus == "C16":
+        dw = digit_words()
+        BN = ["add", "sub", "mul", "div"]
+        for t in ALL_TYPES:
+            tv = type_values(t, False)
+            if t in (3, 7, 11, 12):
+                tv = sorted(set(tv) | {w & M for w in dw})
+            if t in (2, 6):
+                tv = sorted(set(tv) | {w & 0xffffffff for w in dw})
+            av = sorted(set(sm[::5]) | (set(dw[::5]) if t in (3, 7, 6) else set()))
+            av = [a for a in av if abs(a) != FX_NAN]
+            for op in range(4):
+                for k, a in enumerate(av):
+                    for j, b in enumerate(tv):
+                        order = (k + j + op) % 3
+                        if t == 9:
+                            if order == 2:
+                                order = 0
+                            _mix(cases, op, t, order, a, b, dbl=True)
+                            continue
+                        exact = is_int(t) and (op == 2 or (op == 3 and order != 1))
+                        if exact:
+                            _mix(cases, op, t, order, a, b)
+                        elif converts(t, b):
+                            lit = typed_lit(t, b)
+                            rhs = f"W_{BN[op]}(W_from<0,{TYPES[t]}>({lit}), {L(a)})" if order == 1 else f"W_{BN[op]}({L(a)}, W_from<0,{TYPES[t]}>({lit}))"
+                            _law(cases, f"mixed{MIX_OPS[op]}_{TYPES[t]}_equals_promoted", f"W_mix<{op},{order},{TYPES[t]}>({L(a)}, {lit}) == static_cast<u64>({rhs})", f"raw {a} {MIX_OPS[op]} {TYPES[t]} bits {b:#x} order {order} equals the promoted computation")
+                        if order != 2 and (k + j) % 4 == 0:
+                            lit = typed_lit(t, b)
+                            _law(cases, f"compound{MIX_OPS[op]}_{TYPES[t]}", f"W_mix<{op},2,{TYPES[t]}>({L(a)}, {lit}) == W_mix<{op},0,{TYPES[t]}>({L(a)}, {lit})", f"a op= t leaves a equal to a op t: raw {a} {MIX_OPS[op]} {TYPES[t]} bits {b:#x}")
+        return cases
+    if focus == "C18":
+        for left in (0, 1):
+            nm = "shl" if left else "shr"
+            for r in range(0, 64):
+                q = FX_MAX >> r
+                xs = {0, 1, -1, q, q + 1, q - 1, -q, -q - 1, -q + 1, (1 << 62) >> r, -((1 << 62) >> r), 0x5555555555555555 >> (r % 5), -(0x5555555555555555 >> (r % 7)), FX_MAX, -FX_MAX, 65536, -65537}
+                for a in sorted(xs):
+                    if -FX_MAX <= a <= FX_MAX:
+                        cases.append(Case(nm, f"W_{nm}({L(a)}, {r})", ("shift", left, a, r), f"raw {a} {'<<' if left else '>>'} {r}", mode="oracle"))
+            for r in (-(1 << 31), -(1 << 31) + 1, -65536, -64, -63, -33, -32, -31, -2, -1):
+                for a in (0, 1, -1, 65536, FX_MAX, -FX_MAX):
+                    cases.append(Case(nm, f"W_{nm}({L(a)}, {r if r != -(1 << 31) else '(-2147483647-1)'})", ("shift", left, a, r), f"raw {a} {'<<' if left else '>>'} {r}", mode="oracle"))
+        cm = sm[::2]
+        _bin(cases, 11, "band", [(a, b) for a in cm for b in cm])
+        return cases
+    if focus == "C20":
+        for t in ALL_TYPES:
+            tv = set(type_values(t, True))
+            if is_int(t):
+                tv |= {d & ((1 << TBITS[t]) - 1) for d in range(-360, 361, 7) if is_signed(t) or d >= 0}
+                if TBITS[t] == 16:
+                    tv |= set(range(0, 65536, 97))
+                if TBITS[t] == 8:
+                    tv = set(range(256))
+            elif t == 8:
+                tv |= {struct.unpack("<I", struct.pack("<f", float(d)))[0] for d in range(-360, 361, 7)}
+            tv = sorted(tv)
+            if is_int(t):
+                for b in tv:
+                    cases.append(Case(f"angle_to_radians_{TYPES[t]}", f"W_a2r<{TYPES[t]}>({typed_lit(t, b)})", ("a2r", t, b), f"{TYPES[t]} bits {b:#x}", mode="oracle"))
+            if t != 9:
+                for fn in range(3):
+                    for b in tv:
+                        cases.append(Case(f"xangle{fn}_{TYPES[t]}", f"W_xangle<{fn},{TYPES[t]}>({typed_lit(t, b)})", ("xangle", fn, t, b), f"fn={fn} {TYPES[t]} bits {b:#x}", mode="oracle"))
+                    for d in range(-360, 361, 15):
+                        if is_int(t) and not (-(1 << (TBITS[t] - 1)) <= d < (1 << (TBITS[t] - 1)) if is_signed(t) else 0 <= d < (1 << TBITS[t])):
+                            continue
+                        lit = typed_lit(t, d & ((1 << TBITS[t]) - 1)) if is_int(t) else f"{float(d)}f"
+                        _law(cases, f"xangle{fn}_{TYPES[t]}_agrees_with_int32", f"same_or_nan(W_xangle<{fn},{TYPES[t]}>({lit}), W_xangle<{fn},int32_t>(static_cast<int32_t>({d})))", f"fn={fn} d={d}: {TYPES[t]} and int32_t arguments give the same result")
+        for fn, (op, name) in enumerate(((17, "sin_angle_fx"), (18, "cos_angle_fx"), (19, "tan_angle_fx"))):
+            _un(cases, op, name, [d * 65536 for d in range(-360, 361, 3)])
+            for d in range(-360, 361, 15):
+                _law(cases, f"xangle{fn}_fixed_agrees_with_int32", f"same_or_nan(W_{name}({L(d * 65536)}), W_xangle<{fn},int32_t>(static_cast<int32_t>({d})))", f"fn={fn} d={d}: fixed_t and int32_t arguments give the same result")
+        return cases
+    raise ValueError("no constant-evaluation focus for " + str(focus))
+
+def gen_cases(tier, sqrt_available, focus=None):
+    th = tier == "thorough"
+    if focus is not None:
+        return focus_cases(focus, th, sqrt_available)
     cases = []
     su = s_set(3, 1) if th else s_set(2, 1)
     sb = s_set(1, 0) if th else small_set()
@@ -349,6 +616,47 @@ class ShimRT:
         if k == "angle_aprox": return L.fm_angle_aprox(rt[1], rt[2]) & 0xffffffffffffffff
         raise ValueError(k)
 
+def rt_values(path, rts):
+    """Run-time values of a list of call tuples, computed in a forked child so that a trap inside the library (SIGFPE, SIGSEGV)
+    is an observation about the code under test and not the death of the driver. Returns a list of int | ("trap", signal)."""
+    out = [None] * len(rts)
+    start = 0
+    while start < len(rts):
+        r, w = os.pipe()
+        pid = os.fork()
+        if pid == 0:
+            try:
+                os.close(r)
+                sh = ShimRT(path)
+                buf = []
+                for i in range(start, len(rts)):
+                    os.write(w, b"s%d\n" % i)          # about to call i (unbuffered: the parent learns which call trapped)
+                    v = sh.call(rts[i])
+                    os.write(w, b"v%d %d\n" % (i, v))
+                os._exit(0)
+            except BaseException:
+                os._exit(3)
+        os.close(w)
+        data = b""
+        with os.fdopen(r, "rb") as f:
+            data = f.read()
+        _, status = os.waitpid(pid, 0)
+        last_started = None
+        for line in data.splitlines():
+            if line[:1] == b"s":
+                last_started = int(line[1:])
+            elif line[:1] == b"v":
+                i, v = line[1:].split()
+                out[int(i)] = int(v)
+        if os.WIFSIGNALED(status) and last_started is not None and out[last_started] is None:
+            out[last_started] = ("trap", os.WTERMSIG(status))
+            start = last_started + 1
+            continue
+        if os.WIFEXITED(status) and os.WEXITSTATUS(status) == 0:
+            break
+        raise RuntimeError(f"run-time value helper failed for {path}: status {status}")
+    return out
+
 def is_dbl_special(bits):
     d = struct.unpack("<d", struct.pack("<Q", bits))[0]
     return math.isnan(d) or math.isinf(d)
@@ -411,7 +719,35 @@ def compile_chunk(compiler, std, algo, inc, lines, workdir, tag):
             return [None] * len(lines), rejected
     raise RuntimeError("constant-evaluation chunk still fails after removing rejected lines")
 
-def run_lane(tier, inc, shim_dir, build_shims, workdir, ncpu, only_ub=False, focus=None, prop="C08"):
+def _example(cs, cfgname, shape, expected, got, prop):
+    return {"entry": cs.entry, "cfg": cfgname, "shape": shape, "expected": expected, "got": got, "note": "", "rcase": "",
+            "inputs": {"expr": cs.expr, "case": cs.desc, "rt": json.dumps(list(cs.rt) if cs.rt is not None else None), "flags": json.dumps([cs.sqrt_dep, cs.dbl, cs.res32]), "mode": cs.mode, "prop": prop}, "rin": []}
+
+def judge_values(exe, sdir, prop, shim_name, items, workdir, tag):
+    """items: [(idx, rt tuple, value)] -> {idx: (class, expected, got)} for the items the property's oracle rejects."""
+    if not items:
+        return {}
+    inp = os.path.join(workdir, f"judge_{tag}.txt"); out = os.path.join(workdir, f"judge_{tag}.json")
+    M = (1 << 64) - 1
+    with open(inp, "w") as f:
+        for idx, rt, v in items:
+            f.write(f"{idx} {rt[0]} {len(rt) - 1} " + " ".join(str(int(x) & M) for x in rt[1:]) + f" {int(v) & M}\n")
+    r = subprocess.run([exe, prop, "--judge", inp, "--shims", sdir, "--cfgs", shim_name, "--out", out], stdout=subprocess.PIPE, stderr=subprocess.STDOUT, text=True)
+    if r.returncode not in (0, 1):
+        raise RuntimeError(f"judge run failed for {prop} ({shim_name}): exit {r.returncode}: {r.stdout[-800:]}")
+    j = json.load(open(out))
+    res = {}
+    for vc in j["violation_classes"]:
+        for ex in vc["examples"]:
+            res.setdefault(int(ex["order"]), (vc["class"], ex["expected"], ex["got"], vc["count"]))
+    for f in (inp, out):
+        try:
+            os.remove(f)
+        except OSError:
+            pass
+    return res
+
+def run_lane(tier, inc, shim_dir, build_shims, workdir, ncpu, only_ub=False, focus=None, prop="C08", exe=None):
     """Returns (violation_classes, stats, samples)."""
     th = tier == "thorough"
     stds = ["c++17", "c++20", "c++2b"]
@@ -430,34 +766,56 @@ def run_lane(tier, inc, shim_dir, build_shims, workdir, ncpu, only_ub=False, foc
     classes = {}
     stats = {"consteval.lines": 0, "consteval.accepted": 0, "consteval.rejected": 0, "consteval.compared_with_run_time": 0, "consteval.skipped_double_inf_nan_(language_rule)": 0,
              "consteval.translation_unit_configs": len(tus)}
+    if focus:
+        stats.update({"consteval.judged_by_the_property_oracle": 0, "consteval.law_lines_evaluated": 0, "consteval.rejected_lines_(not_a_verdict_of_this_property;_C08_decides_constexpr-ness)": 0})
     samples = []
     jobs = []
     CH = 4000
-    per_tu = {}
+    def add(cl, count, ex):
+        e = classes.setdefault(cl, {"class": cl, "count": 0, "examples": []})
+        e["count"] += count
+        if len(e["examples"]) < 3:
+            e["examples"].append(ex)
     for (c, s, a) in tus:
         name = f"{c}-O0-{s}-{a}"
         rt = rts[name]
         cases = gen_cases(tier, bool(rt.cx), focus)
-        # run-time values first (also decides the language-rule exclusions)
+        # run-time values first (they decide the language-rule exclusions; in "equal" mode they are also the expectation)
         kept = []
-        for cs in cases:
-            ref = rts[f"{c}-O0-c++17-abacus"] if (cs.sqrt_dep and rt.algo != 1) else rt
-            v = ref.call(cs.rt)
+        abname = f"{c}-O0-c++17-abacus"
+        use_ab = [bool(cs.rt is not None and cs.sqrt_dep and rt.algo != 1) for cs in cases]
+        own = rt_values(os.path.join(sdir, name + ".so"), [cs.rt for cs, ab in zip(cases, use_ab) if cs.rt is not None and not ab])
+        oth = rt_values(os.path.join(sdir, abname + ".so"), [cs.rt for cs, ab in zip(cases, use_ab) if ab])
+        own_it, oth_it = iter(own), iter(oth)
+        for cs, ab in zip(cases, use_ab):
+            if cs.rt is None:
+                kept.append((cs, None, False)); continue
+            v = next(oth_it) if ab else next(own_it)
+            if isinstance(v, tuple):
+                stats["consteval.run_time_call_trapped"] = stats.get("consteval.run_time_call_trapped", 0) + 1
+                add((("C07.trap_in_run_time_call." if only_ub else prop + ".trap.") + cs.entry), 1,
+                    _example(cs, (abname if ab else name), "run-time call made to obtain the comparison value", "returns normally", f"killed by signal {v[1]}", prop))
+                continue
             if cs.dbl and is_dbl_special(v):
                 stats["consteval.skipped_double_inf_nan_(language_rule)"] += 1
                 continue
-            kept.append((cs, v, ref is not rt))
-        per_tu[name] = kept
+            kept.append((cs, v, ab))
         for k in range(0, len(kept), CH):
             jobs.append((name, c, s, a, k, kept[k:k + CH]))
     def work(j):
         name, c, s, a, k, chunk = j
-        vals, rej = compile_chunk("g++" if c == "gcc" else "clang++", s, a, inc, [cs.expr for cs, _, _ in chunk], workdir, f"{name.replace('+', 'p')}_{k}")
-        return j, vals, rej
+        tag = f"{name.replace('+', 'p')}_{k}"
+        vals, rej = compile_chunk("g++" if c == "gcc" else "clang++", s, a, inc, [cs.expr for cs, _, _ in chunk], workdir, tag)
+        items = [(i, cs.rt, vals[i]) for i, (cs, _, _) in enumerate(chunk) if cs.mode == "oracle" and i not in rej and vals[i] is not None]
+        verdicts = judge_values(exe, sdir, prop, name, items, workdir, tag) if items else {}
+        return j, vals, rej, verdicts, len(items)
     with cf.ThreadPoolExecutor(ncpu) as ex:
-        for j, vals, rej in ex.map(work, jobs):
+        for j, vals, rej, verdicts, njudged in ex.map(work, jobs):
             name, c, s, a, k, chunk = j
+            cfgname = f"{c}-{s}-{a} (constant evaluation)"
             reasons = rej.pop("_reasons", [])
+            if focus:
+                stats["consteval.judged_by_the_property_oracle"] += njudged
             for i, (cs, rtv, other) in enumerate(chunk):
                 stats["consteval.lines"] += 1
                 if i in rej and cs.optional:
@@ -468,50 +826,72 @@ def run_lane(tier, inc, shim_dir, build_shims, workdir, ncpu, only_ub=False, foc
                     diag = rej[i] + " || " + " ; ".join(reasons[:3])
                     if only_ub and not UB_PAT.search(diag):
                         continue
+                    if focus:
+                        stats["consteval.rejected_lines_(not_a_verdict_of_this_property;_C08_decides_constexpr-ness)"] += 1
+                        continue
                     cl = ("C07.consteval_ub." if only_ub else prop + ".consteval_rejected.") + cs.entry
-                    e = classes.setdefault(cl, {"class": cl, "count": 0, "examples": []})
-                    e["count"] += 1
-                    if len(e["examples"]) < 3:
-                        e["examples"].append({"entry": cs.entry, "cfg": f"{c}-{s}-{a} (constant evaluation)", "shape": "constexpr", "expected": "accepted as a constant expression (the run-time call returns " + hex(rtv) + ")",
-                                              "got": "rejected: " + diag[:600], "note": "", "rcase": "", "inputs": {"expr": cs.expr, "case": cs.desc, "rt": json.dumps(list(cs.rt)), "flags": json.dumps([cs.sqrt_dep, cs.dbl, cs.res32])}, "rin": []})
+                    add(cl, 1, _example(cs, cfgname, "constexpr", "accepted as a constant expression (the run-time call returns " + hex(rtv if rtv is not None else 0) + ")", "rejected: " + diag[:600], prop))
                     continue
                 stats["consteval.accepted"] += 1
                 if only_ub:
                     continue
                 v = vals[i]
+                if cs.mode == "law":
+                    stats["consteval.law_lines_evaluated"] = stats.get("consteval.law_lines_evaluated", 0) + 1
+                    if v != 1:
+                        add(prop + ".consteval_law_violated." + cs.entry, 1, _example(cs, cfgname, "constexpr law (a relation between constant-evaluated calls)", "true", "false", prop))
+                    continue
+                if cs.mode == "oracle":
+                    if i in verdicts:
+                        cl, expd, got, _ = verdicts[i]
+                        add(cl + ".in_constant_evaluation", 1, _example(cs, cfgname, "constexpr, judged by the property's oracle", expd, got + " (constant-evaluated value " + hex(v) + ")", prop))
+                    continue
                 if cs.res32:
                     v &= 0xffffffff; rtv &= 0xffffffff
                 stats["consteval.compared_with_run_time"] += 1
-                same = v == rtv
-                if not same:
-                    cl = prop + ".consteval_value_differs." + cs.entry
-                    e = classes.setdefault(cl, {"class": cl, "count": 0, "examples": []})
-                    e["count"] += 1
-                    if len(e["examples"]) < 3:
-                        e["examples"].append({"entry": cs.entry, "cfg": f"{c}-{s}-{a} (constant evaluation)", "shape": "constexpr vs run time" + (" (run-time value from the abacus configuration of the same compiler)" if other else ""),
-                                              "expected": hex(rtv) + " (run-time value)", "got": hex(v) + " (constant-evaluated value)", "note": "", "rcase": "", "inputs": {"expr": cs.expr, "case": cs.desc, "rt": json.dumps(list(cs.rt)), "flags": json.dumps([cs.sqrt_dep, cs.dbl, cs.res32])}, "rin": []})
+                if v != rtv:
+                    add(prop + ".consteval_value_differs." + cs.entry, 1, _example(cs, cfgname, "constexpr vs run time" + (" (run-time value from the abacus configuration of the same compiler)" if other else ""),
+                                                                                      hex(rtv) + " (run-time value)", hex(v) + " (constant-evaluated value)", prop))
                 elif len(samples) < 3 and cs.entry in ("tan", "mixed/_double", "hypot"):
                     samples.append(f"constexpr {cs.expr} == run time {hex(rtv)} in {name}")
     return sorted(classes.values(), key=lambda x: x["class"]), stats, samples
 
 
-def replay_one(ex, inc, build_shims, workdir):
+def replay_one(ex, inc, build_shims, workdir, exe=None):
     """Re-evaluate one recorded constant-evaluation example against the current tree. Returns (reproduced, text)."""
+    rt = json.loads(ex["inputs"]["rt"]); rt = tuple(rt) if rt is not None else None
+    if ex.get("shape", "").startswith("run-time call"):
+        sdir, errors = build_shims([ex["cfg"]])
+        if errors:
+            return True, "shim does not build: " + list(errors.values())[0][-800:]
+        v = rt_values(os.path.join(sdir, ex["cfg"] + ".so"), [rt])[0]
+        return isinstance(v, tuple), (f"the run-time call is killed by signal {v[1]}" if isinstance(v, tuple) else f"the run-time call returns {hex(v)}")
     c, std, algo = ex["cfg"].split(" ")[0].split("-")
-    rt = tuple(json.loads(ex["inputs"]["rt"])); sqrt_dep, dbl, res32 = json.loads(ex["inputs"]["flags"])
+    sqrt_dep, dbl, res32 = json.loads(ex["inputs"]["flags"])
+    mode = ex["inputs"].get("mode", "equal"); prop = ex["inputs"].get("prop", "C08")
     name = f"{c}-O0-{std}-{algo}"
     sdir, errors = build_shims([name, f"{c}-O0-c++17-abacus"])
     if errors:
         return True, "shim does not build: " + list(errors.values())[0][-800:]
-    me = ShimRT(os.path.join(sdir, name + ".so"))
-    ref = ShimRT(os.path.join(sdir, f"{c}-O0-c++17-abacus.so")) if (sqrt_dep and me.algo != 1) else me
-    rtv = ref.call(rt)
     os.makedirs(workdir, exist_ok=True)
     vals, rej = compile_chunk("g++" if c == "gcc" else "clang++", std, algo, inc, [ex["inputs"]["expr"]], workdir, "replay")
     rej.pop("_reasons", None)
     if 0 in rej:
+        if mode != "equal":
+            return False, "rejected as a constant expression (not a verdict of this property): " + rej[0]
         return True, "rejected as a constant expression: " + rej[0]
     v = vals[0]
+    if mode == "law":
+        return (v != 1), f"the law expression evaluates to {v}"
+    if mode == "oracle":
+        verdicts = judge_values(exe, sdir, prop, name, [(0, rt, v)], workdir, "replay")
+        if 0 in verdicts:
+            return True, f"constant-evaluated value {hex(v)} rejected by the property's oracle: class {verdicts[0][0]}, expected {verdicts[0][1]}"
+        return False, f"constant-evaluated value {hex(v)} accepted by the property's oracle"
+    me = ShimRT(os.path.join(sdir, name + ".so"))
+    rtv = rt_values(os.path.join(sdir, (f"{c}-O0-c++17-abacus" if (sqrt_dep and me.algo != 1) else name) + ".so"), [rt])[0]
+    if isinstance(rtv, tuple):
+        return True, f"the run-time call is killed by signal {rtv[1]}"
     if res32:
         v &= 0xffffffff; rtv &= 0xffffffff
     if v != rtv:
